@@ -144,6 +144,10 @@ def gen_unary(rng, cx=False):
         # ... and the buffer given POSITIONALLY (ufuncs: right after the operands; reductions: fourth)
         pre = [None, None] if name in ("sum", "mean", "prod", "cumsum", "cumprod") else []
         yield case(name, [A(rng, shp, "pos", cx)] + pre, fresh_out=[list(oshp), odt], fresh_out_pos=1 + len(pre), tags=["out_buffer", "out_positional"])
+        if name in ("sum", "mean", "prod"):
+            # ... with further positional options AFTER the buffer (keepdims): the buffer is not the last argument
+            yield case(name, [A(rng, (2, 3), "pos", cx), 0, None], fresh_out=[[1, 3], odt], fresh_out_pos=3, fresh_out_after=[True], tags=["out_buffer", "out_positional", "out_not_last"])
+            yield case(name, [A(rng, (2, 3), "pos", cx), 1, None], fresh_out=[[2], odt], fresh_out_pos=3, fresh_out_after=[False], tags=["out_buffer", "out_positional", "out_not_last"])
     # kinks: abs/absolute/fabs at exact zeros
     if not cx:
         for name in ("abs", "absolute", "fabs"):
@@ -823,6 +827,13 @@ def gen_shape(rng, cx=False):
         yield case("astype", [R(r), "float32"], form="method", tags=["reduced"])
         yield case("astype", [R(r), complex], form="method", tags=["to_complex"])
         yield case("astype", [R(r), float], {"copy": False}, form="method")
+        if not cx:
+            # kind AND precision change at once (float64 -> complex64 / clongdouble): the gradient goes back to float64
+            yield case("astype", [R(r), onp.complex64], form="method", tags=["to_complex", "reduced"])
+            yield case("astype", [R(r), "complex64"], {"copy": True}, form="method", tags=["to_complex", "reduced"])
+            yield case("astype", [R(r), onp.clongdouble], form="method", tags=["to_complex"])
+            yield case("astype", [R(r), onp.float16], form="method", tags=["reduced"])
+            yield case("astype", [R(r), onp.longdouble], form="method")
 
 
 # ---------------------------------------------------------------- list-taking constructors
